@@ -26,7 +26,13 @@ type Parser struct {
 	currentToken *Token // Current token being processed
 	peekToken    *Token // Next token (lookahead)
 	resolver     ReferenceResolver
+	depth        int // arrays and dictionaries currently being parsed
 }
+
+// maxNestingDepth bounds how deeply arrays and dictionaries may nest. The
+// parser recurses once per level, so without a bound an object made of opening
+// brackets exhausts the stack.
+const maxNestingDepth = 512
 
 // SetReferenceResolver sets the reference resolver for the parser.
 // This is needed to resolve indirect stream lengths.
@@ -224,6 +230,12 @@ func (p *Parser) parseArray() (Object, error) {
 	}
 	p.nextToken()
 
+	p.depth++
+	defer func() { p.depth-- }()
+	if p.depth > maxNestingDepth {
+		return nil, fmt.Errorf("arrays and dictionaries nested deeper than %d", maxNestingDepth)
+	}
+
 	var arr Array
 	for {
 		// Skip comments
@@ -260,6 +272,12 @@ func (p *Parser) parseDict() (Object, error) {
 		return nil, fmt.Errorf("expected '<<', got %v", p.currentToken.Type)
 	}
 	p.nextToken()
+
+	p.depth++
+	defer func() { p.depth-- }()
+	if p.depth > maxNestingDepth {
+		return nil, fmt.Errorf("arrays and dictionaries nested deeper than %d", maxNestingDepth)
+	}
 
 	dict := make(Dict)
 	for {
